@@ -727,7 +727,8 @@ fn write_evidence(
         "components": {
             "real": ["front-end/src/main.rs main() (included verbatim)", "clap parsing and validation (orchestrator/src/command_line.rs)", "configuration layering through the config crate (-C overrides)", "pasfmt::format / make_formatter", "FormattingOrchestrator::run", "orchestrator/src/file_formatter.rs (byte-identical, compiled against the seam)", "pasfmt-core (lexer incl. run-time dispatch static, parser, rules, optimising line formatter, reconstructor)", "encoding_rs", "std::io::Read::read_to_end / Write::write_all default implementations"],
             "simulated": ["std::fs::File/OpenOptions (in-memory POSIX-subset file system)", "stdin/stdout/stderr streams", "rayon parallel iterator (executor modelling rayon's documented contract, driven by the seeded baton scheduler)", "stderrlog (recording logger, level pinned at WARN)", "is_x86_feature_detected (real detection AND a per-run knob)", "argv"],
-            "not_simulated": ["walkdir / glob / --files-from / pasfmt.toml discovery (real file system; cases pass explicit file paths and -C options only)"]
+            "real_on_a_scratch_tree": ["walkdir / glob / --files-from path discovery and the duplicate filter's metadata()/canonicalize(): the real crates on a per-run scratch tree of empty placeholder files (incl. symbolic links, hard links, directories named like source files, names with glob metacharacters), the list file or a closed pipe on the real stdin; contents and all reads/writes stay in the simulated file system"],
+            "not_simulated": ["pasfmt.toml discovery (no configuration file exists in the scratch tree; options arrive as -C overrides only)", "special files (FIFOs, devices), directory permissions, resource limits other than the descriptor limit knob"]
         }
     });
     if prop != "C18" {
@@ -745,7 +746,7 @@ fn write_evidence(
         "assumptions": [
             "the simulated file system, streams and pool executor are models (POSIX subset; rayon's documented contract, a superset of its real schedules)",
             "encoding_rs conversion tables are trusted (the reference codec uses its streaming API, the product its one-shot API)",
-            "the formatter as a pure function is taken, not judged (contents on which it aborts alone are discarded and counted)",
+            "the formatter as a pure function is taken, not judged (contents on which it aborts or stalls alone are discarded and counted; C18 keeps batches with a file that panics inside pasfmt-core and judges what happens to the other files)",
             "a clean batch is evidence over the sampled schedules, faults and contents, not a proof over all"
         ],
         "wall_s": wall,
